@@ -9,7 +9,8 @@
    `rows_of` of the same run's call log, row by row and in order. *)
 From Coq Require Import ZArith Bool List.
 Import ListNotations.
-From Verif Require Import Model.Val Gen.Src_Task Gen.Src_Event Model.Sim Model.SimRows Proofs.SimP Proofs.SimP2 Proofs.SimRowsP.
+From Verif Require Import Model.Val Gen.Src_Task Gen.Src_Event Model.Sim Model.SimRows Proofs.SimP Proofs.SimP2 Proofs.SimRowsP
+  Model.SimGraphRows Proofs.SimGraphRowsP.
 Open Scope Z_scope.
 
 (* every row written at an accepted call is true of the machine: times are the clock, release/placement/
@@ -70,3 +71,50 @@ Theorem C08_rows_example :
   Some [RUtil 0 0 0 0 1; RRelease 0 0 0 2; RPlacement 0 0 3 [(0, 1)]; RFinished 3 0 3 2; RMissed 3 0 2; REnd 10 1 0 1].
 Proof. exact rows_example. Qed.
 Print Assumptions C08_rows_example.
+
+(* ---------------------------------------------------------------- graph-level rows and the graph counters of the summary
+   (Model/SimGraphRows.v; tie: stream S-grows) *)
+
+(* every graph-level row written at an accepted call is true of the machine: a TASK_GRAPH_FINISHED row names a graph every
+   sink of which is COMPLETED/EVICTED at that moment, with the graph's deadline and tardiness max(0, time - deadline); a
+   MISSED_TASK_GRAPH_DEADLINE row is written after the deadline; the cancelled-graphs figure of SIMULATOR_END is the number of
+   graphs one of whose sinks is CANCELLED then *)
+Theorem C08_graph_row_written_is_true : forall W G gf gm s s' e,
+  sim_step W s e = Some s' -> forall r, In r (grows_ev G gf gm s s' e) -> grow_true G s s' r.
+Proof. exact grows_ev_true. Qed.
+Print Assumptions C08_graph_row_written_is_true.
+
+Theorem C08_every_graph_row_of_every_trace_is_true : forall W G l s gf gm rr,
+  grows_run W G s gf gm l = Some rr ->
+  forall r, In r rr -> exists l1 e l2 s1 s2 a b, l = l1 ++ e :: l2 /\ sim_exec W s l1 = Some s1 /\ sim_step W s1 e = Some s2 /\
+                                         In r (grows_ev G a b s1 s2 e) /\ grow_true G s1 s2 r.
+Proof. exact grows_run_true. Qed.
+Print Assumptions C08_every_graph_row_of_every_trace_is_true.
+
+(* at the completion of a member of a graph: TASK_GRAPH_FINISHED exactly when all its sinks are complete, the graph-level
+   miss row exactly when the completion is later than the graph's deadline, and the missed-graph-deadline counter grows exactly
+   when a graph finishes late *)
+Theorem C08_graph_rows_iff : forall W G gf gm s s' t g,
+  sim_step W s (EFinish t) = Some s' -> graph_of G t = Some g ->
+  (g_complete s' g = true <-> count_grows is_gfin (grows_ev G gf gm s s' (EFinish t)) = 1) /\
+  (g_complete s' g = false <-> count_grows is_gfin (grows_ev G gf gm s s' (EFinish t)) = 0) /\
+  (g_deadline g < s_clock s <-> In (RGMissed (s_clock s) (g_id g) (g_deadline g)) (grows_ev G gf gm s s' (EFinish t))) /\
+  count_grows is_glate (grows_ev G gf gm s s' (EFinish t)) =
+    (if g_complete s' g && (g_deadline g <? s_clock s) then 1 else 0).
+Proof. exact graph_rows_iff. Qed.
+Print Assumptions C08_graph_rows_iff.
+
+(* the finished-graphs and missed-graph-deadlines figures of every SIMULATOR_END row are the number of TASK_GRAPH_FINISHED
+   rows before it and the number of those written after the graph's deadline *)
+Theorem C08_graph_summary_counts_the_rows : forall W G l rr, grows_of W G l = Some rr -> gend_ok 0 0 rr.
+Proof. exact grows_of_gend_ok. Qed.
+Print Assumptions C08_graph_summary_counts_the_rows.
+
+Theorem C08_cancelled_graphs_census : forall s G, count_cancelled s G = Z.of_nat (length (filter (g_cancelled s) G)).
+Proof. exact count_cancelled_spec. Qed.
+Print Assumptions C08_cancelled_graphs_census.
+
+Theorem C08_graph_rows_example :
+  grows_of gex_world [mkG 0 2 [0] [0]] gex_log = Some [RGFinished 3 0 2 1; RGMissed 3 0 2; RGEnd 10 1 0 1].
+Proof. exact grows_example. Qed.
+Print Assumptions C08_graph_rows_example.
